@@ -9,9 +9,12 @@
 package moss
 
 import (
+	"bytes"
 	"encoding/binary"
 	"encoding/json"
+	"errors"
 	"fmt"
+	"io"
 	"io/ioutil"
 	"os"
 	"path"
@@ -414,15 +417,23 @@ func (s *Store) persistHeader(file File) error {
 	return nil
 }
 
+// errHeaderIncomplete is returned by checkHeader for a file that is
+// shorter than a header page or whose header page is still all zeroes.
+var errHeaderIncomplete = errors.New("store: header incomplete")
+
 func checkHeader(file File) error {
 	buf := make([]byte, StorePageSize)
 
 	n, err := file.ReadAt(buf, int64(0))
+	if err == io.EOF || (err == nil && n != len(buf)) {
+		return errHeaderIncomplete
+	}
 	if err != nil {
 		return err
 	}
-	if n != len(buf) {
-		return fmt.Errorf("store: readHeader too short")
+
+	if bytes.Equal(buf, make([]byte, len(buf))) {
+		return errHeaderIncomplete // The header page was never written.
 	}
 
 	lines := strings.Split(string(buf), "\n")
@@ -595,6 +606,13 @@ func openStore(dir string, options StoreOptions) (*Store, error) {
 		err = checkHeader(file)
 		if err != nil {
 			file.Close()
+			if err == errHeaderIncomplete {
+				// A file whose header page was never completely
+				// written, e.g. a compaction target that was just
+				// created when the process or machine stopped, holds
+				// no data; try the next older file instead.
+				continue
+			}
 			return nil, err
 		}
 
